@@ -25,9 +25,10 @@ import z3
 
 from vf.common import Plan, Obligation, Outcome, DISCHARGED, REFUTED
 from vf.pyvc.engine import World, T, Int, Float, Label, RecT, SeqT, Rec, PyList, SeqV, FuncRef, Model, Unsupp, RaiseExc, fresh
-from vf.pyvc.contract import FnContract, Case, obligations_for
+from vf.pyvc.contract import FnContract, Case, obligations_for, lemma
 from vf.pyvc.interp import Interp
 from vf.pyvc.spec import And
+from vf.pyvc.aseq import s_len, s_at
 
 PID = "C06"
 BASE = "pennylane/core/operator/base.py"
@@ -122,7 +123,22 @@ def build(tier, seed):
         memo = args[1] if len(args) > 1 else kw.get("memo")
         cell.setdefault("deepcopy_calls", []).append(memo)
         return deep(args[0], memo if isinstance(memo, dict) else {})
-    LIB = {"vars": b_vars, "setattr": b_setattr, "hasattr": b_hasattr, "id": lambda it, a, k: id(a[0]), "copy.copy": b_copy, "copy": b_copy,
+    def b_dict(it, args, kw):
+        if not args:
+            return dict(kw)
+        x = args[0]
+        if isinstance(x, dict):
+            return dict(x, **kw)
+        items = x.items if isinstance(x, PyList) else x
+        if not isinstance(items, (tuple, list)) or not all(isinstance(p, (tuple, PyList)) for p in items):
+            raise Unsupp("dict() of a non-enumerated value")
+        out = {}
+        for p in items:
+            k, v = (p.items if isinstance(p, PyList) else p)
+            out[k] = v
+        out.update(kw)
+        return out
+    LIB = {"dict": b_dict, "vars": b_vars, "setattr": b_setattr, "hasattr": b_hasattr, "id": lambda it, a, k: id(a[0]), "copy.copy": b_copy, "copy": b_copy,
            "copy.deepcopy": b_deepcopy, "deepcopy": b_deepcopy, "handle_recursion_error": lambda it, a, k: a[0]}
 
     def ghost(ctx, a):
@@ -140,22 +156,26 @@ def build(tier, seed):
             return Rec(world.classes[cls_name], f)
         return T("build", ctor, gen=lambda rng: None)
 
-    def untouched(o_rec, nw_rec):
-        """frame: the original has the same attributes with the same (identical) values as before"""
-        a, b = o_rec.f, nw_rec.f
-        if list(a.keys()) != list(b.keys()):
-            return False
-        for k in a:
-            x, y = a[k], b[k]
-            if isinstance(x, dict) and isinstance(y, dict):
-                if list(x.keys()) != list(y.keys()) or not all(same(getattr(x[j], "origin", x[j]), getattr(y[j], "origin", y[j])) for j in x):
-                    return False
-            elif isinstance(x, (Rec, PyList)):
-                if x.origin is not y.origin:
-                    return False
-            elif not same(x, y) and not (isinstance(x, tuple) and isinstance(y, tuple) and len(x) == len(y) and all(same(p, q) for p, q in zip(x, y))):
+    def unchanged(x, y, seen):
+        """deep: the pre-state value x and the post-state value y denote the same objects with the same contents"""
+        if isinstance(x, (Rec, PyList)):
+            if not isinstance(y, type(x)) or x.origin is not y.origin:
                 return False
-        return True
+            if id(x) in seen:
+                return True
+            seen.add(id(x))
+            if isinstance(x, PyList):
+                return len(x.items) == len(y.items) and all(unchanged(p, q, seen) for p, q in zip(x.items, y.items))
+            return list(x.f.keys()) == list(y.f.keys()) and all(unchanged(x.f[k], y.f[k], seen) for k in x.f)
+        if isinstance(x, dict):
+            return isinstance(y, dict) and list(x.keys()) == list(y.keys()) and all(unchanged(x[k], y[k], seen) for k in x)
+        if isinstance(x, tuple):
+            return isinstance(y, tuple) and len(x) == len(y) and all(unchanged(p, q, seen) for p, q in zip(x, y))
+        return same(x, y)
+
+    def untouched(o_rec, nw_rec):
+        """frame: the original (and everything reachable from it) has the same attributes with the same values as before"""
+        return unchanged(o_rec, nw_rec, set())
 
     def native_skip(rng, m):
         return m
@@ -328,13 +348,15 @@ def build(tier, seed):
         return T("build", c, gen=lambda rng: None)
 
     def sym_world(file, cls_name):
-        return World(OM + file, classes={cls_name: {}, "SymbolicOp": (OM + "symbolicop.py", {}), "Operator": (BASE, {})}, extra_builtins=RT_LIB)
+        return World(OM + file, classes={cls_name: {}, "ScalarSymbolicOp": (OM + "symbolicop.py", {}), "SymbolicOp": (OM + "symbolicop.py", {}),
+                                               "Operator": (BASE, {})}, extra_builtins=RT_LIB)
     wadj = sym_world("adjoint.py", "Adjoint")
     contracts.append(FnContract(wadj, "Adjoint._flatten", [round_trip(
         wadj, "Adjoint", sym_op(wadj, "Adjoint", lambda ctx: {}), lambda s: ([s.f["_hyperparameters"]["base"]], {}), "round trip: cls(base)", False)]))
     wpow = sym_world("pow.py", "Pow")
     contracts.append(FnContract(wpow, "Pow._flatten", [round_trip(
-        wpow, "Pow", sym_op(wpow, "Pow", lambda ctx: {"z": fresh(ctx, Float, "z")}), lambda s: ([s.f["_hyperparameters"]["base"]], {"z": s.f["z"]}),
+        wpow, "Pow", sym_op(wpow, "Pow", lambda ctx: {"__hp__": {"z": fresh(ctx, Float, "z")}, "scalar": fresh(ctx, Float, "z2")}),
+        lambda s: ([s.f["_hyperparameters"]["base"]], {"z": s.f["_hyperparameters"]["z"]}),
         "round trip: pow(base, z=z)", False)]))
     wsp = sym_world("sprod.py", "SProd")
     contracts.append(FnContract(wsp, "SProd._flatten", [round_trip(
@@ -342,8 +364,8 @@ def build(tier, seed):
         lambda s: ([s.f["scalar"], s.f["_hyperparameters"]["base"]], {}), "round trip: cls(scalar, base)", False)]))
     wexp = sym_world("exp.py", "Exp")
     contracts.append(FnContract(wexp, "Exp._flatten", [round_trip(
-        wexp, "Exp", sym_op(wexp, "Exp", lambda ctx: {"_data": (fresh(ctx, Float, "coeff"),)}),
-        lambda s: ([s.f["_hyperparameters"]["base"], s.f["_data"][0]], {}), "round trip: cls(base, coeff)", False)]))
+        wexp, "Exp", sym_op(wexp, "Exp", lambda ctx: {"scalar": fresh(ctx, Float, "coeff")}),
+        lambda s: ([s.f["_hyperparameters"]["base"], s.f["scalar"]], {}), "round trip: cls(base, coeff)", False)]))
     wctl = sym_world("controlled.py", "Controlled")
     contracts.append(FnContract(wctl, "Controlled._flatten", [round_trip(
         wctl, "Controlled", sym_op(wctl, "Controlled", lambda ctx: {"__hp__": {"control_wires": fresh(ctx, Label, "cw"), "control_values": (True, False),
@@ -429,6 +451,7 @@ def build(tier, seed):
                 "bind_new_parameters_conditional", "bind_new_parameters_controlled_op2", "bind_new_parameters_copy"]
     wbn = World(BNP, functions=fn_names, stubs={"GenOp": (GEN_SRC, {}), "Operand": OPSTUB}, modular={"bind_new_parameters": mc_bind}, extra_builtins=bnp_lib)
     PARAMS = SeqT(Float, tuple=True)
+    wbn.aseq(Float)          # register the axiomatic sequence theory before the first case is set up
 
     def gen_op(fields):
         def c(ctx, name):
@@ -450,7 +473,7 @@ def build(tier, seed):
             return "GenOp", list(r.f["ctor_args"]), dict(r.f["ctor_kwargs"])
         return None, None, None
 
-    def bnp_case(fname, label, op_fields, check, size_bounded=False, requires=None):
+    def bnp_case(fname, label, op_fields, check, size_bounded=False, requires=None, params_t=None):
         def post(o, r, nw):
             if not isinstance(nw.op, Rec):
                 return True
@@ -458,7 +481,7 @@ def build(tier, seed):
             if cls is None:
                 return False
             return And(check(nw.op, nw.params, cls, args, kwargs), untouched(o.op, nw.op))
-        contracts.append(FnContract(wbn, fname, [Case(label, {"op": gen_op(op_fields), "params": PARAMS}, ghost=ghost, requires=requires, ensures=post,
+        contracts.append(FnContract(wbn, fname, [Case(label, {"op": gen_op(op_fields), "params": params_t or PARAMS}, ghost=ghost, requires=requires, ensures=post,
                                                       native_gen=native_skip, native_call=lambda mod, a: None, size_bounded=size_bounded)]))
     L = z3.Length
 
@@ -555,7 +578,10 @@ def build(tier, seed):
         pos, goals = z3.IntVal(0), []
         for x, o_ in zip(a, ops):
             n_ = o_.f["num_params"]
-            goals.append(seq_goal(x.params, z3.Extract(p.term, pos, n_)))
+            if not isinstance(x.params, SeqV):
+                return False
+            k_ = z3.Int(f"k_idx{len(goals)}")          # a free index: the goal holds for every position of the slice
+            goals.append(z3.And(s_len(x.params.term) == n_, z3.Implies(z3.And(0 <= k_, k_ < n_), s_at(x.params.term, k_) == s_at(p.term, pos + k_))))
             pos = pos + n_
         return And(True, *goals)
 
@@ -564,13 +590,96 @@ def build(tier, seed):
             if not isinstance(a.params, SeqV):
                 return True
             ns = [o_.f["num_params"] for o_ in a.op.f["operands"].items]
-            return z3.And(*[x >= 0 for x in ns], z3.Sum(ns) == L(a.params.term))
+            return z3.And(*[x >= 0 for x in ns], z3.Sum(ns) == s_len(a.params.term))
         return req
     for n in (1, 2, 3):
         bnp_case("bind_new_parameters_composite_op", f"{n} operands: operand i gets params[sum(n_j, j<i) : ... + n_i]", comp_fields(n), comp_check,
-                 size_bounded=True, requires=comp_requires(n))
+                 size_bounded=True, requires=comp_requires(n), params_t=SeqT(Float, tuple=True, ax=True))
+
+    # composite, SYMBOLIC number of operands: loop invariant over the slicing bookkeeping.  POS(i) = sum of num_params of operands[:i]
+    # (POS(0) = 0, POS(i+1) = POS(i) + num_params(operands[i])); the invariant says that after i rounds the remaining parameter
+    # sequence is params[POS(i):] and result j < i is operand j bound to params[POS(j):POS(j+1)].  Since POS(n) = len(params) and POS
+    # is monotone (lemmas below), the slices partition params: every parameter is used exactly once, in order.
+    from vf.pyvc.interp import StarArgs
+    from vf.pyvc.contract import LoopSpec
+    PAX = SeqT(Float, tuple=True, ax=True)
+    BOUND_SRC = "class BoundOp:\n    pass\n"
+    POS = z3.Function("C06.pos", z3.IntSort(), z3.IntSort())
+
+    def mc_bind_rec(it, args, kwargs):
+        return Rec(wbs.classes["BoundOp"], {"tag": args[0].f["tag"], "count": args[0].f["num_params"], "params": args[1]})
+    wbs = World(BNP, functions=["bind_new_parameters_composite_op"], stubs={"GenOp": (GEN_SRC, {}), "Operand": OPSTUB,
+                                                                             "BoundOp": (BOUND_SRC, {"tag": Int, "count": Int, "params": PAX})},
+                modular={"bind_new_parameters": mc_bind_rec}, extra_builtins=dict(LIB, CTORSEQ=lambda it, a, k: Built("cls", a, k)))
+    wbs.aseq(Float)
+    OPS_T = SeqT(RecT("Operand"), ax=True)
+    wbs.aseq(RecT("Operand"))
+    wbs.aseq(RecT("BoundOp"))
+
+    def sym_op_type():
+        def c(ctx, name):
+            return Rec(wbs.classes["GenOp"], {"operands": fresh(ctx, OPS_T, "operands"), "__class__": FuncRef("builtin", "CTORSEQ")})
+        return T("build", c, gen=lambda rng: None)
+
+    def np_at(ops, j):
+        return wbs.unbox(s_at(ops.term, j), ops.elem).f["num_params"]
+
+    def tag_at(ops, j):
+        return wbs.unbox(s_at(ops.term, j), ops.elem).f["tag"]
+
+    def pos_axioms(ops, p):
+        j, k = z3.Ints("pj pk")
+        n = s_len(ops.term)
+        return [POS(0) == 0, POS(n) == s_len(p.term),
+                z3.ForAll([j], z3.Implies(z3.And(0 <= j, j < n), z3.And(np_at(ops, j) >= 0, POS(j + 1) == POS(j) + np_at(ops, j))), patterns=[POS(j)]),
+                z3.ForAll([j, k], z3.Implies(z3.And(0 <= j, j <= k, k <= n), POS(j) <= POS(k)), patterns=[z3.MultiPattern(POS(j), POS(k))])]
+
+    def bound_at(seq, j):
+        return wbs.unbox(s_at(seq.term, j), seq.elem)
+
+    def result_ok(res, ops, p, upto, j, k):
+        """result j (< upto) is operand j bound to params[POS(j) : POS(j+1)] -- stated for an arbitrary j and position k"""
+        b = bound_at(res, j)
+        return z3.Implies(z3.And(0 <= j, j < upto),
+                          z3.And(b.f["tag"] == tag_at(ops, j), s_len(b.f["params"].term) == np_at(ops, j),
+                                 z3.Implies(z3.And(0 <= k, k < np_at(ops, j)), s_at(b.f["params"].term, k) == s_at(p.term, POS(j) + k))))
+
+    def sym_inv(v):
+        i = v._i0
+        ops, p0 = v.op.f["operands"], v.at_entry.params
+        j, k = z3.Ints("ij ik")
+        cur = v.params
+        b = bound_at(v.new_operands, j)
+        return z3.And(
+            s_len(v.new_operands.term) == i, s_len(cur.term) == s_len(p0.term) - POS(i),
+            z3.ForAll([k], z3.Implies(z3.And(0 <= k, k < s_len(cur.term)), s_at(cur.term, k) == s_at(p0.term, POS(i) + k)), patterns=[s_at(cur.term, k)]),
+            z3.ForAll([j], z3.Implies(z3.And(0 <= j, j < i), z3.And(b.f["tag"] == tag_at(ops, j), s_len(b.f["params"].term) == np_at(ops, j))),
+                      patterns=[s_at(v.new_operands.term, j)]),
+            z3.ForAll([j, k], z3.Implies(z3.And(0 <= j, j < i, 0 <= k, k < np_at(ops, j)), s_at(b.f["params"].term, k) == s_at(p0.term, POS(j) + k)),
+                      patterns=[s_at(b.f["params"].term, k)]))
+
+    def sym_post(o, r, nw):
+        if not isinstance(nw.op, Rec):
+            return True
+        if not (isinstance(r, Built) and len(r.args) == 1 and isinstance(r.args[0], StarArgs) and not r.kwargs):
+            return False
+        res, ops, p = r.args[0].seq, nw.op.f["operands"], o.params
+        j, k = z3.Int("free_j"), z3.Int("free_k")
+        return z3.And(s_len(res.term) == s_len(ops.term), result_ok(res, ops, p, s_len(ops.term), j, k))
+    contracts.append(FnContract(wbs, "bind_new_parameters_composite_op", [Case(
+        "any number of operands: operand j gets params[POS(j):POS(j+1)], POS = running sum of num_params (loop invariant)",
+        {"op": sym_op_type(), "params": PAX}, ghost=ghost, requires=lambda a: z3.And(*pos_axioms(a.op.f["operands"], a.params)) if isinstance(a.op, Rec) else True,
+        ensures=sym_post, loops={0: LoopSpec(sym_inv, types={"new_operands": SeqT(RecT("BoundOp"), ax=True), "params": PAX})},
+        native_gen=native_skip, native_call=lambda mod, a: None)]))
+    cell["pos_lemmas"] = None
+    pj, pk, cnt = z3.Ints("lj lk lcnt")
+    plan.add(lemma(PID, "partition/POS is monotone: induction step", [pj, pk, cnt], POS(pj) <= POS(pk + 1),
+                   assumptions=[POS(pj) <= POS(pk), cnt >= 0, POS(pk + 1) == POS(pk) + cnt]))
 
     for fc in contracts:
+        if not getattr(fc.world, "_linked", False):
+            fc.world.link_bases()
+            fc.world._linked = True
         plan.fn_under_contract(fc.world.file, fc.qualname)
         for ob in obligations_for(PID, fc, tier):
             plan.add(ob)
